@@ -45,11 +45,11 @@ var props = map[string]propSpec{
 	"C03": ps("equality of results for programs whose meaning depends on user functions; closure compiler and interpreter are compared by shape, not by normal form", "SIBLING-1", "SIBLING-2", "SIBLING-3", "SIBLING-4", "SIBLING-6", "SIBLING-7", "SIBLING-8", "SIBLING-9", "POPORDER-1", "LAZY", "BC-1", "BC-2", "BC-5", "BC-6", "BC-7"),
 	"C04": ps("IEEE arithmetic, the tolerance comparison, rune counting, set semantics, strtotime (a C library), literal decoding: values are not computed by static analysis; only that the VM twin of each built-in is the same expression, that integer rendering is guarded, and that every built-in is registered", "SIBLING-2", "INTGUARD-1", "INTGUARD-2", "SIG-1", "SIG-2", "SETORD-1", "SPEC-1", "SPEC-2", "BC-1", "BC-7", "IDENT-2"),
 	"C05": ps("completeness/soundness of Unify as an algorithm (C17); the 'if and only if' as a whole", "TC", "EQ-FIELDS", "UN-1", "KEY-1", "KINDSW", "PAIR-1", "SIBLING-9"),
-	"C06": ps("user-registered lazy functions' own bodies; that a thunk forced twice evaluates twice is the same in all back ends by shape", "LAZY", "SIBLING-3", "SIBLING-8", "SIBLING-6", "SIBLING-7", "POPORDER-1", "BC-3", "DS~DS-2", "TRAVERSE-1"),
+	"C06": ps("user-registered lazy functions' own bodies; that a thunk forced twice evaluates twice is the same in all back ends by shape", "LAZY", "SIBLING-3", "SIBLING-8", "SIBLING-6", "SIBLING-7", "POPORDER-1", "BC-3", "DS~DS-2", "DS-9", "TRAVERSE-1"),
 	"C07": ps("whether types.Equals is the right relation for host data of equal shape (C15/C17)", "ENVCHK", "PANIC-1", "EQ-FIELDS", "LAYOUT", "CONV", "EFFECT-2"),
 	"C08": ps("equality with a reference precedence parser for all operator tables; syntax-error classification of arbitrary token sequences", "PARSE", "EFFECT-2"),
 	"C09": ps("agreement with a reference maximal-munch lexer on all strings; the regular languages of the literal patterns", "LEX", "LEX-8", "SORTLESS-2", "EFFECT-2"),
-	"C10": ps("the semantic half (same value or fail alike) beyond operand order and callee; it follows from C03/C05 for the explicit call", "DS", "DS-7", "SIBLING-4", "LEX-8"),
+	"C10": ps("the semantic half (same value or fail alike) beyond operand order and callee; it follows from C03/C05 for the explicit call", "DS", "DS-7", "DS-9", "SIBLING-4", "LEX-8"),
 	"C11": ps("nothing is executed: the stack-effect walk is an induction over the compiler source (trusted: the walker's model of the six emitter functions)", "BC-1", "BC-2", "BC-3", "BC-5", "BC-6", "BC-7", "SIBLING-2", "EFFECT-2"),
 	"C12": ps("termination / polynomial time in general (only the backtracking structure is decided); unrecoverable Go failures (stack exhaustion, OOM, concurrent map write)", "PANIC-1", "PARSE-8", "CONV", "BC-2", "BC-3", "DS-7", "TRAVERSE-1", "PAIR-2"),
 	"C13": ps("time literals relative to now; user-registered functions", "EFFECT-1", "EFFECT-2", "EFFECT-3", "EFFECT-4", "EFFECT-5", "EFFECT-6", "EFFECT-7", "ENGINE", "MAPORDER-1", "MAPORDER-2", "PAIR-1", "SORTLESS-1", "SIBLING-9", "ENVCHK", "IDENT-2", "DS~DS-2"),
